@@ -7,7 +7,9 @@
   `valid : Request → Bool`; "missing, corrupted, wrong-key or out-of-validity" all enter as `valid r = false`.
 
   The pseudo-ID room version org.matrix.msc4014 (the sender ID is itself a public key, events are
-  self-verified) is not covered by these theorems (`row.key ≠ "org.matrix.msc4014"` is a hypothesis where it matters).
+  self-verified, a join's `mxid_mapping` is verified through the caller's verifier) has its own model
+  `verifyPseudo` and its own theorems at the end of the file; `requiredSigners` is the `needed` map of all
+  other versions.
 -/
 import VModel.Signers
 namespace V.C06
@@ -514,5 +516,137 @@ theorem no_panic (row : VGen.VersionRow) (hc : ColsOk row) (e : Event) (sd : Exc
                 exact hr _ hcontra
             · simp only [hinv] at hcontra
               exact hr _ hcontra
+
+/-! ### The pseudo-ID room version (org.matrix.msc4014) -/
+
+theorem mem_addNeeded' (s x : Bytes) (l : List Bytes) (h : x ∈ l) : x ∈ addNeeded s l := by
+  unfold addNeeded
+  split
+  · exact h
+  · exact List.mem_append_left _ h
+
+theorem self_addNeeded (s : Bytes) (l : List Bytes) : s ∈ addNeeded s l := by
+  unfold addNeeded
+  split
+  · rename_i h; simpa using h
+  · simp
+
+/-- In a pseudo-ID room the event verifies only if the sender's own key validly signed it. -/
+theorem pseudo_sender_required (row : VGen.VersionRow) (e : Event) (valid : Request → Bool) (vf : Bool)
+    (selfValid : Bytes → Bool) (h : (verifyPseudo row e valid vf selfValid).verdict = .ok ()) :
+    selfValid e.sender = true := by
+  unfold verifyPseudo at h
+  simp only at h
+  have fin : ∀ (asked : Option (List Bytes)) (needed : List Bytes), e.sender ∈ needed →
+      (if needed.all selfValid then (Except.ok () : Except Err Unit) else .error (errRej "signature")) = .ok () →
+      selfValid e.sender = true := by
+    intro asked needed hm hh
+    by_cases ha : needed.all selfValid = true
+    · exact List.all_eq_true.mp ha _ hm
+    · simp [ha] at hh
+  split at h
+  · exact fin none _ (by simp) h
+  · split at h
+    · cases h
+    · rename_i m hm
+      split at h
+      · rename_i r hr
+        -- stage 1 failed: the verdict is an error
+        split at hr
+        · split at hr
+          · cases hr; cases h
+          · split at hr
+            · cases hr; cases h
+            · split at hr
+              · cases hr; cases h
+              · split at hr
+                · cases hr; cases h
+                · split at hr
+                  · cases hr
+                  · cases hr; cases h
+        · cases hr
+      · rename_i asked hs
+        have hn1 : e.sender ∈ (if m == b!"invite" then
+            match e.stateKey with
+            | some sk => addNeeded sk [e.sender]
+            | none => [e.sender]
+          else [e.sender]) := by
+          split
+          · split
+            · exact mem_addNeeded' _ _ _ (by simp)
+            · simp
+          · simp
+        split at h
+        · split at h
+          · cases h
+          · rename_i auth hr
+            refine fin asked _ ?_ h
+            split
+            · exact hn1
+            · exact mem_addNeeded' _ _ _ hn1
+        · exact fin asked _ hn1 h
+
+/-- …and, for a join, only if the content carries an `mxid_mapping` whose signers include the server of the
+    user it names, and the caller's verifier accepts the mapping for EVERY server listed in
+    `mxid_mapping.signatures` — in particular for the user's (the sender's) server. -/
+theorem pseudo_mapping_signers_valid (row : VGen.VersionRow) (e : Event) (valid : Request → Bool) (vf : Bool)
+    (selfValid : Bytes → Bool) (htype : e.type = b!"m.room.member") (hjoin : membership e = .ok b!"join")
+    (h : (verifyPseudo row e valid vf selfValid).verdict = .ok ()) :
+    ∃ mp userServer, getMXIDMapping e = .ok mp ∧ vf = false ∧
+      Spec.serverOf 0x40 mp.userID = some userServer ∧ userServer ∈ mp.servers ∧
+      ∀ s ∈ mp.servers, valid ⟨s, e.originServerTS, strictValidity row⟩ = true := by
+  unfold verifyPseudo at h
+  have ht : (e.type != b!"m.room.member") = false := by rw [htype]; decide
+  simp only [ht, hjoin] at h
+  cases hg : getMXIDMapping e with
+  | error err => simp [hg] at h
+  | ok mp =>
+    simp only [hg] at h
+    cases hsp : splitIDDomain 0x40 mp.userID with
+    | none => simp [hsp] at h
+    | some us =>
+      simp only [hsp] at h
+      by_cases hc : mp.servers.contains us = true
+      · simp only [hc, Bool.not_true, Bool.false_eq_true, if_false] at h
+        refine ⟨mp, us, rfl, ?_⟩
+        cases vf with
+        | true => simp at h
+        | false =>
+          refine ⟨rfl, by rw [← splitIDDomain_eq_serverOf 0x40 (by decide)]; exact hsp, by simpa using hc, ?_⟩
+          by_cases ha : mp.servers.all (fun s => valid ⟨s, e.originServerTS, strictValidity row⟩) = true
+          · intro s hs
+            exact List.all_eq_true.mp ha s hs
+          · simp [ha] at h
+      · have hc' : mp.servers.contains us = false := by simpa using hc
+        simp only [hc', Bool.not_false, if_true] at h
+        cases h
+
+/-- A join whose mapping carries no signatures is rejected whatever the verifier and the sender's key say
+    (before /repo e791b10 it verified as long as the sender's own key had signed the event). -/
+def unsignedMappingWitness : Event :=
+  { ver := b!"org.matrix.msc4014", eventID := b!"$e", obj :=
+      [(b!"type", .str b!"m.room.member"), (b!"sender", .str b!"KEY"), (b!"state_key", .str b!"KEY"),
+       (b!"content", .obj [(b!"membership", .str b!"join"),
+          (b!"mxid_mapping", .obj [(b!"user_room_key", .str b!"KEY"), (b!"user_id", .str b!"@victim:hs1"),
+            (b!"signatures", .obj [])])])] }
+
+/-- the same event with the mapping signed by the user's server -/
+def signedMappingWitness : Event :=
+  { ver := b!"org.matrix.msc4014", eventID := b!"$e", obj :=
+      [(b!"type", .str b!"m.room.member"), (b!"sender", .str b!"KEY"), (b!"state_key", .str b!"KEY"),
+       (b!"content", .obj [(b!"membership", .str b!"join"),
+          (b!"mxid_mapping", .obj [(b!"user_room_key", .str b!"KEY"), (b!"user_id", .str b!"@victim:hs1"),
+            (b!"signatures", .obj [(b!"hs1", .obj [(b!"ed25519:1", .str b!"AAAA")])])])])] }
+
+def pseudoAccepted (e : Event) (valid : Request → Bool) (selfValid : Bytes → Bool) : Bool :=
+  match VGen.roomVersions.find? (fun r => r.key == "org.matrix.msc4014") with
+  | some row => match (verifyPseudo row e valid false selfValid).verdict with
+    | .ok _ => true
+    | .error _ => false
+  | none => false
+
+example : pseudoAccepted unsignedMappingWitness (fun _ => true) (fun n => n == b!"KEY") = false ∧
+    pseudoAccepted signedMappingWitness (fun r => r.server == b!"hs1") (fun n => n == b!"KEY") = true ∧
+    pseudoAccepted signedMappingWitness (fun _ => false) (fun n => n == b!"KEY") = false := by decide
 
 end V.C06
